@@ -550,7 +550,8 @@ impl StorageEngine {
             Some(stored_value) => {
                 match &mut stored_value.value {
                     Value::Stream(stream) => {
-                        let id = stream.add_auto(fields);
+                        let id = stream.try_add_auto(fields)
+                            .map_err(|e| FerrousError::Command(CommandError::Generic(e.to_string())))?;
                         shard_guard.mark_modified(&key);
                         id
                     }
